@@ -1,3 +1,8 @@
+/// The identifier a name stands for in Rust: `r#` is not part of it
+pub fn plain_ident(name: &str) -> &str {
+    name.strip_prefix("r#").unwrap_or(name)
+}
+
 pub fn lcm(iter: impl Iterator<Item = usize>) -> usize {
     // divide first: `acc * x` overflows for large alignments even when the result fits
     iter.fold(1, |acc, x| acc / gcd(acc, x) * x)
